@@ -13,6 +13,7 @@ import (
 	"context"
 	"fmt"
 	"io"
+	"net/http"
 	"os"
 	"path/filepath"
 	"sort"
@@ -56,11 +57,13 @@ type Feat struct {
 	MountStatus int   `json:"mount_status"`          // anonymous mount: 0 -> 202 session, 201 granted when the host holds the blob, 4xx refused
 	Preseed     bool  `json:"preseed,omitempty"`     // the blob already exists in another repository of the host
 	ChunkMin    int   `json:"chunk_min,omitempty"`   // OCI-Chunk-Min-Length announced
-	LocStyle    int   `json:"loc_style"`             // 0..5, see regmodel.Features.LocStyle
+	EnforceMin  bool  `json:"enforce_min,omitempty"` // a PATCH that follows a chunk shorter than ChunkMin is rejected (only without a partial-acceptance plan)
+	LocStyle    int   `json:"loc_style"`             // 0..5 see regmodel.Features.LocStyle; 6 deepening path-relative relocation (reloc.go)
 	Accept      []int `json:"accept,omitempty"`      // bytes accepted per PATCH (cyclic, <0 = all)
 	PartialMode int   `json:"partial_mode"`          // 0: 202+Range, 1: 416+Location+Range
 	RefuseMono  bool  `json:"refuse_mono,omitempty"` // monolithic PUT refused
 	Early201    bool  `json:"early201,omitempty"`    // PATCH answers 201
+	RangeBytes  bool  `json:"range_bytes,omitempty"` // upload Range headers spelled "bytes=0-N" (Docker registry API) instead of "0-N"
 }
 
 // FaultSpec is one transient failure.
@@ -387,6 +390,7 @@ type observed struct {
 	faultOn     []string
 	reloc416    int
 	capHit      bool
+	emptyPutCommitted bool // a body-less closing PUT committed an empty session
 	ambiguous0  bool // an upload status GET was answered while nothing had been accepted: "Range: 0-0" cannot say so
 }
 
@@ -419,6 +423,9 @@ func observe(m *rm.Model) observed {
 				o.reloc416++
 			}
 		case "upload-put":
+			if len(e.Body) == 0 && accepted == 0 && e.Applied && e.Status == 201 {
+				o.emptyPutCommitted = true
+			}
 			if len(e.Body) > 0 {
 				o.monoTried = true
 				if e.Status == 201 {
@@ -577,9 +584,13 @@ func check(c Case, ev *evid.Collector) *evid.Violation {
 	ft := &h.Feat
 	ft.AnonMountStatus = c.Feat.MountStatus
 	ft.ChunkMin = c.Feat.ChunkMin
-	ft.LocStyle = c.Feat.LocStyle
-	if ft.LocStyle < 0 || ft.LocStyle > 5 {
-		ft.LocStyle = 0
+	locStyle := c.Feat.LocStyle
+	if locStyle < 0 || locStyle > 6 {
+		locStyle = 0
+	}
+	ft.LocStyle = locStyle
+	if locStyle == 6 {
+		ft.LocStyle = 0 // style 6 = deepening path-relative relocation, done by the wrapper in reloc.go
 	}
 	if ft.LocStyle == 5 {
 		ft.UploadBackend = backendHost
@@ -590,6 +601,29 @@ func check(c Case, ev *evid.Collector) *evid.Violation {
 	ft.RefuseMono = c.Feat.RefuseMono
 	ft.Early201 = c.Feat.Early201
 	ft.Lax = f.lax
+	// a registry that announced a minimum chunk length may insist on it: once a further PATCH shows
+	// that the previous chunk was not the final one, a previous chunk below the minimum is an error.
+	// Not combined with partial acceptance (the remainder of a partly accepted chunk is legitimately short).
+	enforceMin := c.Feat.EnforceMin && c.Feat.ChunkMin > 0 && len(f.accept) == 0
+	if enforceMin {
+		prevLen := map[string]int{}
+		h.Intercept = func(_ *rm.Model, _ *rm.Host, e *rm.Entry, _ *http.Request) *rm.Resp {
+			if e.Class != "upload-patch" {
+				return nil
+			}
+			sid := e.Ref
+			if i := strings.IndexByte(sid, '/'); i >= 0 {
+				sid = sid[:i]
+			}
+			if pl, ok := prevLen[sid]; ok && pl < c.Feat.ChunkMin {
+				e.Note = fmt.Sprintf("rejected: previous chunk of %d bytes is below the announced minimum %d", pl, c.Feat.ChunkMin)
+				return &rm.Resp{Status: 400, Header: http.Header{"Content-Type": {"application/json"}}, TruncateAt: -1,
+					Body: []byte(`{"errors":[{"code":"BLOB_UPLOAD_INVALID","message":"previous chunk below OCI-Chunk-Min-Length"}]}`)}
+			}
+			prevLen[sid] = len(e.Body)
+			return nil
+		}
+	}
 	// the shortcut "anonymous mount of an existing blob" trusts the declared descriptor without
 	// reading the stream; it is only offered for a fully correct declaration (see notes)
 	preseed := c.Feat.Preseed && !f.contra && f.declDig != ""
@@ -611,6 +645,10 @@ func check(c Case, ev *evid.Collector) *evid.Violation {
 	if c.HostChunk > 0 || c.HostMax != 0 {
 		conf.Hosts = []config.Host{{Name: regHost, Hostname: regHost, BlobChunk: int64(c.HostChunk), BlobMax: int64(c.HostMax)}}
 	}
+	if locStyle == 6 || c.Feat.RangeBytes {
+		dp := &deepen{inner: m, on: locStyle == 6, rangeBytes: c.Feat.RangeBytes, depth: map[string]int{}}
+		conf.RegOpts = append(conf.RegOpts, reg.WithHTTPClient(&http.Client{Transport: dp}))
+	}
 	rc := rcutil.New(m, conf)
 	r, err := ref.New(regHost + "/" + repoName)
 	if err != nil {
@@ -624,7 +662,7 @@ func check(c Case, ev *evid.Collector) *evid.Violation {
 	}
 
 	// ---- classification ----
-	classes = append(classes, fmt.Sprintf("loc-style:%d", ft.LocStyle), fmt.Sprintf("mount:%d", c.Feat.MountStatus))
+	classes = append(classes, fmt.Sprintf("loc-style:%d", locStyle), fmt.Sprintf("mount:%d", c.Feat.MountStatus))
 	if c.Feat.ChunkMin > f.chunkCfg {
 		classes = append(classes, "chunk-min-raises")
 	} else if c.Feat.ChunkMin > 0 {
@@ -641,6 +679,12 @@ func check(c Case, ev *evid.Collector) *evid.Violation {
 	}
 	if c.Feat.Early201 {
 		classes = append(classes, "early201")
+	}
+	if enforceMin {
+		classes = append(classes, "chunk-min-enforced")
+	}
+	if c.Feat.RangeBytes {
+		classes = append(classes, "range-bytes-prefix")
 	}
 	if preseed {
 		classes = append(classes, "preseeded")
@@ -684,8 +728,8 @@ func check(c Case, ev *evid.Collector) *evid.Violation {
 		faultKey += fmt.Sprintf("%s%d@%d,", fs.Kind, fs.Status, fs.AtSeq)
 	}
 	ntKey := fmt.Sprintf("%s|L%s/%d|c%d|m%d|try%v|%+v|%v|ls%d|pm%d|rm%v|e%v|mt%d/%v|min%d|%s|sk%v|sr%d|%s",
-		c.Dest, lenClass(c.Len, f.chunkEff), c.Len, f.chunkEff, f.maxEff, f.tryPut, c.Declared, f.accept, ft.LocStyle, ft.PatchPartialMode,
-		ft.RefuseMono, ft.Early201, c.Feat.MountStatus, preseed, c.Feat.ChunkMin, faultKey, c.Seekable, len(c.ShortReads), f.algo)
+		c.Dest, lenClass(c.Len, f.chunkEff), c.Len, f.chunkEff, f.maxEff, f.tryPut, c.Declared, f.accept, locStyle, ft.PatchPartialMode,
+		ft.RefuseMono, b2i(ft.Early201)+2*b2i(c.Feat.RangeBytes), c.Feat.MountStatus, preseed, c.Feat.ChunkMin*2+b2i(enforceMin), faultKey, c.Seekable, len(c.ShortReads), f.algo)
 
 	if timedOut {
 		classes = append(classes, "outcome:watchdog")
@@ -736,9 +780,11 @@ func check(c Case, ev *evid.Collector) *evid.Violation {
 			return nil
 		}
 		_, committed := blobs[f.declDig]
-		if f.declDig == rm.Digest("sha256", nil) && f.declSize == 0 && src.delivered == 0 && (res.err == nil || committed) {
-			return debug(evid.V("empty-digest-declared-stream-never-read", "BlobPut with the declared digest of the empty blob (size 0/unknown) and a stream of %d bytes never read a single byte "+
-				"of the stream (returned error: %v; empty blob committed under the declared digest: %v): %s", c.Len, res.err, committed, where))
+		if f.declDig == rm.Digest("sha256", nil) && f.declSize == 0 && c.Len > 0 && o.emptyPutCommitted && (res.err == nil || committed) {
+			// one root cause: the descriptor {digest of the empty blob, size 0} selects the body-less PUT of
+			// the empty-blob special case, which commits the empty blob without ever looking at the stream
+			return debug(evid.V("empty-digest-declared-stream-never-read", "BlobPut with the declared digest of the empty blob (size 0/unknown) and a stream of %d bytes sent a body-less closing PUT "+
+				"without reading the stream (returned error: %v; empty blob committed under the declared digest: %v; bytes read from the stream afterwards: %d): %s", c.Len, res.err, committed, src.delivered, where))
 		}
 		if res.err == nil {
 			what := "size"
@@ -868,6 +914,13 @@ func checkLayout(c Case, f *facts, d descriptor.Descriptor, rdr io.Reader, class
 		return evid.V("layout-returned-size-wrong", "layout BlobPut returned size %d, the stream has %d bytes: %s", res.d.Size, c.Len, where)
 	}
 	return nil
+}
+
+func b2i(b bool) int {
+	if b {
+		return 1
+	}
+	return 0
 }
 
 func firstDiff(a, b []byte) int {
